@@ -435,7 +435,7 @@ Definition ex_parse (b : bytes) : option (list oid) :=
 Definition ex_in (src : store) (req fails : list oid) (verify : bool) : t_in :=
   {| t_src := src; t_dst := []; t_cache := None; t_parse := ex_parse;
      t_corrupt := fun _ => false; t_req := req; t_shallow := false; t_verify := verify;
-     t_dix := None; t_six := None; t_fails := fun o => mem o fails;
+     t_dix := None; t_six := None; t_dnoop := false; t_snoop := false; t_fails := fun o => mem o fails;
      t_part := fun _ => false; t_trunc := fun _ => [];
      t_dord := fun l => l; t_bord := fun l => l |}.
 
@@ -470,7 +470,7 @@ Proof. vm_compute. auto. Qed.
 Definition ex1_retry : t_in :=
   {| t_src := t_src ex1; t_dst := dst_after ex1; t_cache := None; t_parse := ex_parse;
      t_corrupt := fun _ => false; t_req := t_req ex1; t_shallow := false; t_verify := false;
-     t_dix := None; t_six := None; t_fails := fun _ => false;
+     t_dix := None; t_six := None; t_dnoop := false; t_snoop := false; t_fails := fun _ => false;
      t_part := fun _ => false; t_trunc := fun _ => [];
      t_dord := fun l => l; t_bord := fun l => l |}.
 Example ex1_retry_wf : wf ex1_retry.
@@ -538,7 +538,7 @@ Qed.
 Definition ex_open : t_in :=
   {| t_src := [(f1, [11]); (f2, [12]); (d1, [1])]; t_dst := [(f1, [11])]; t_cache := None;
      t_parse := ex_parse; t_corrupt := fun o => list_N_eqb o f2; t_req := [d1; f2];
-     t_shallow := true; t_verify := true; t_dix := None; t_six := None;
+     t_shallow := true; t_verify := true; t_dix := None; t_six := None; t_dnoop := false; t_snoop := false;
      t_fails := fun _ => false; t_part := fun _ => false; t_trunc := fun _ => [];
      t_dord := fun l => l; t_bord := fun l => l |}.
 Example ex_open_wf11 : wf11 ex_open.
@@ -564,7 +564,7 @@ Proof. vm_compute. auto. Qed.
 Definition ex_part : t_in :=
   {| t_src := [(f1, [11]); (f2, [12]); (d1, [1])]; t_dst := []; t_cache := None; t_parse := ex_parse;
      t_corrupt := fun _ => false; t_req := [d1]; t_shallow := false; t_verify := false;
-     t_dix := None; t_six := None; t_fails := fun o => list_N_eqb o f2;
+     t_dix := None; t_six := None; t_dnoop := false; t_snoop := false; t_fails := fun o => list_N_eqb o f2;
      t_part := fun _ => true; t_trunc := fun _ => [7];
      t_dord := fun l => l; t_bord := fun l => l |}.
 Example ex_part_wf : wf ex_part.
@@ -576,4 +576,25 @@ Example ex_part_run :
   o_events (transfer ex_part) = [Put f1 true; Partial f2 [7]; SrcIndexClear] /\
   o_outcome (transfer ex_part) = TOk [f1] [d1; f2] /\
   lookup f2 (dst_after ex_part) = Some [7] /\ has (dst_after ex_part) d1 = false.
+Proof. vm_compute. auto. Qed.
+
+(* fetch direction over a source that is NOT closed: the source holds d1 but lost f2; with a
+   source index (here the no-op one) status never probes f2 ("directory exists => files exist"),
+   f2 is classified new, its upload fails (nothing to read), d1 is withheld and both are failed.
+   [wf] asks nothing of the source or of the source index. *)
+Definition ex_fetch : t_in :=
+  {| t_src := [(f1, [11]); (d1, [1])]; t_dst := []; t_cache := None; t_parse := ex_parse;
+     t_corrupt := fun _ => false; t_req := [d1]; t_shallow := false; t_verify := false;
+     t_dix := None; t_six := Some []; t_dnoop := false; t_snoop := true;
+     t_fails := fun _ => false; t_part := fun _ => false; t_trunc := fun _ => [];
+     t_dord := fun l => l; t_bord := fun l => l |}.
+Example ex_fetch_wf : wf ex_fetch.
+Proof.
+  pose proof (ex_wf [(f1, [11]); (d1, [1])] [d1] [] false) as [A B C D E F G H].
+  constructor; auto.
+Qed.
+Example ex_fetch_run :
+  option_map c_new (o_status (transfer ex_fetch)) = Some [d1; f1; f2] /\
+  filter is_store_event (o_events (transfer ex_fetch)) = [Put f1 true; Put f2 false] /\
+  o_outcome (transfer ex_fetch) = TOk [f1] [d1; f2] /\ has (dst_after ex_fetch) d1 = false.
 Proof. vm_compute. auto. Qed.
